@@ -424,6 +424,9 @@ impl<'a> IrCodegen<'a> {
             inner.set_routes(self.routes.clone());
             inner.set_needs_serde(self.needs_serde);
             inner.set_needs_tokio(self.needs_tokio);
+            if self.test_mode {
+                inner.set_test_function(self.test_function.clone());
+            }
             inner.set_needs_axum(self.needs_axum);
             inner.set_external_rust_functions(self.external_rust_functions.clone());
             Ok(svc.emit_program(&ir_program)?)
@@ -436,6 +439,9 @@ impl<'a> IrCodegen<'a> {
             emitter.set_routes(self.routes.clone());
             emitter.set_needs_serde(self.needs_serde);
             emitter.set_needs_tokio(self.needs_tokio);
+            if self.test_mode {
+                emitter.set_test_function(self.test_function.clone());
+            }
             emitter.set_needs_axum(self.needs_axum);
             emitter.set_external_rust_functions(self.external_rust_functions.clone());
             Ok(emitter.emit_program(&ir_program)?)
